@@ -348,7 +348,9 @@ def run_witness(u, repo, bdir):
         wit = [l[l.index("WITNESS "):] for l in wsrc.split("\n") if "WITNESS " in l]
         n_wit = len(wit)
         wit = wit[:6] + ([f"... and {n_wit - 6} more WITNESS lines"] if n_wit > 6 else [])
-        return {"found": bool(wit), "witness_lines": wit, "output": out[-6000:], "cmd": " ".join(cmd), "rc": rc}
+        explored = [l[l.index("explored:"):].strip() for l in wsrc.split("\n") if "explored:" in l]
+        return {"found": bool(wit), "witness_lines": wit, "output": out[-6000:], "cmd": " ".join(cmd), "rc": rc,
+                "ran": bool(explored) or bool(wit), "explored": explored[:4]}
     finally:
         shutil.rmtree(sc, ignore_errors=True)
 
@@ -470,6 +472,32 @@ def main(argv):
                        "replay_cmd": f"./check {prop} --replay {rp}"}, open(rp, "w"), indent=1)
             violations.append((rp, ob, wit))
 
+    # ---- thorough tier: the witness search of every PROVED unit is run as well - the oracle on the real code must be
+    # quiet where the contract holds (a replayed failing input is a violation whatever the proof says), and a witness
+    # search that no longer builds or runs is recorded (it would be useless the day it is needed)
+    witness_runs = []
+    if a.tier == "thorough" and not a.no_witness:
+        for u, r in zip(units, results):
+            if r["status"] != "proved" or not (u.get("witness") or u.get("witness_by_property")) or u["engine"] not in ("R", "S", "V"):
+                continue
+            wit = run_witness(u, a.repo, bdir)
+            witness_runs.append({"unit": r["unit"], "ran": wit.get("ran", False), "found": wit.get("found", False), "explored": wit.get("explored", [])})
+            if not wit.get("ran"):
+                print(f"WITNESS-NOT-RUN property={prop} unit={r['unit']} (the witness search produced no `explored:` line: build failure or time-out; see evidence)")
+            if wit.get("found"):
+                names = (u.get("contract_by_property") or {}).get(prop) or u.get("contract") or ["(unit)"]
+                ob = {"name": f"{u['id']}::{names[0]}", "contract": True, "status": "refuted",
+                      "note": "every obligation of the unit is discharged, but the witness search replayed a failing input on the real code (outside what the contract abstracts: floating point, an assumed callee contract, or the witness itself)"}
+                k = match_known(known, prop, r, ob)
+                if k:
+                    known_hits.append((k, ob))
+                    continue
+                rp = os.path.join(out_root, "replay/out", f"{prop}-{r['unit']}-witness.json")
+                json.dump({"property": prop, "unit": r["unit"], "obligation": ob["name"], "engine": r["engine"], "sites": [],
+                           "verifier_output": [], "counterexample": None, "witness": wit, "repo": a.repo,
+                           "template": u.get("template"), "note": ob["note"], "replay_cmd": f"./check {prop} --replay {rp}"}, open(rp, "w"), indent=1)
+                violations.append((rp, ob, wit))
+
     # ---- evidence
     obs = [o for r in results for o in r["obligations"]]
     discharged = [o for o in obs if o["status"] == "discharged"]
@@ -497,6 +525,7 @@ def main(argv):
             "functions_under_contract": [f for r in results for f in r["functions_under_contract"]],
             "bounded": [b for u in units for b in u.get("bounded", [])],
             "undecided": [{"unit": r["unit"], "reason": r["reason"]} for _, r in undecided],
+            "witness_runs_on_proved_units": witness_runs,
             "clauses_not_covered": not_covered(prop),
             "assumed_contracts": sorted({x for u in units for x in u.get("assumes", [])}),
             "known_findings_matched": [k["_line"] for k, _ in known_hits],
